@@ -380,7 +380,6 @@ theorem lower_noPanic (p : Problem α) (v : Vars α) (hb : Built p v) (instr : I
   | declarePoint _ => intro h; cases h
   | declareCircle _ => intro h; cases h
   | declareArc _ => intro h; cases h
-  | line _ _ => intro h; cases h
   | _ =>
     simp only [lower]
     repeat (first
